@@ -55,4 +55,48 @@ theorem x87_tail (F : FpuSpec) (op : FOp) (hop : op.isCmp = true) (r : Rel) (s :
   cases op <;> simp [FOp.isCmp] at hop <;> cases r <;> flag_cases s
 
 
+theorem ofNat8_mul256_add (n k : Nat) : BitVec.ofNat 8 (n / 256 * 256 + k) = BitVec.ofNat 8 k := by
+  apply BitVec.eq_of_toNat_eq; simp only [BitVec.toNat_ofNat]; omega
+
+theorem ofNat8_mul256 (n : Nat) : BitVec.ofNat 8 (n / 256 * 256) = 0#8 := by
+  apply BitVec.eq_of_toNat_eq; simp only [BitVec.toNat_ofNat]; omega
+
+/-! ### truth tests: `cmp_zero` leaves the flags of `e ? 0` (SSE) or `0 ? e` (x87); its tail
+    `sete %al; setnp %dl; and %dl, %al; xor $1, %al` turns them into ZF = "ordered and equal" -/
+
+/-- `!e`: `cmp_zero` tail, `sete %al; movzx %al, %rax` -/
+theorem truth_not (F : FpuSpec) (r : Rel) (s : FState) :
+    ∃ s', Fp.run F (instrsOf (cmpZeroTail ++ [ins1 "sete" (.r "%al"), ins2 "movzx" (.r "%al") (.r "%rax")]))
+        (s.setRel r) = some s' ∧
+      s'.x.get .rax = b2bv (!truth r) ∧ s'.st = s.st ∧ s'.cw = s.cw ∧ s'.x.get .rsp = s.x.get .rsp := by
+  cases r <;>
+  ( refine ⟨_, rfl, ?_, rfl, rfl, rfl⟩
+    simp [State.get, State.set, State.setW, State.getW, State.src, State.cond, State.flags, aluExec, FState.setRel,
+      Rel.flags, low8_write, b2bv, truth]
+    try (repeat' split) <;> bv_omega)
+
+/-- `(_Bool)e`: `cmp_zero` tail, `setne %al; movzx %al, %eax` -/
+theorem truth_bool (F : FpuSpec) (r : Rel) (s : FState) :
+    ∃ s', Fp.run F (instrsOf (cmpZeroTail ++ [ins1 "setne" (.r "%al"), ins2 "movzx" (.r "%al") (.r "%eax")]))
+        (s.setRel r) = some s' ∧
+      s'.x.get .rax = b2bv (truth r) ∧ s'.st = s.st ∧ s'.cw = s.cw ∧ s'.x.get .rsp = s.x.get .rsp := by
+  cases r <;>
+  ( refine ⟨_, rfl, ?_, rfl, rfl, rfl⟩
+    simp [State.get, State.set, State.setW, State.getW, State.src, State.cond, State.flags, aluExec, FState.setRel,
+      Rel.flags, low8_write, b2bv, truth]
+    try (repeat' split) <;> bv_omega)
+
+/-- the branches: after the `cmp_zero` tail ZF is set exactly when `e` is false, the flags are defined, so
+    `je` is taken iff `e` is false and `jne` iff `e` is true (a NaN is true) -/
+theorem truth_jcc (F : FpuSpec) (r : Rel) (s : FState) (l : String) :
+    ∃ s', Fp.run F (instrsOf cmpZeroTail) (s.setRel r) = some s' ∧
+      jumpOf ⟨"je", [.s l]⟩ s' = some (true, !truth r, l) ∧
+      jumpOf ⟨"jne", [.s l]⟩ s' = some (true, truth r, l) ∧
+      s'.x.flagsValid = true ∧ s'.xmm0 = s.xmm0 ∧ s'.xmm1 = s.xmm1 ∧ s'.st = s.st ∧ s'.cw = s.cw ∧
+      s'.x.get .rsp = s.x.get .rsp := by
+  cases r <;>
+  ( refine ⟨_, rfl, ?_⟩
+    simp [jumpOf, State.get, State.set, State.setW, State.getW, State.src, State.cond, State.flags, aluExec, FState.setRel,
+      Rel.flags, low8_write, truth, ofNat8_mul256_add, ofNat8_mul256])
+
 end ChibiVerif.Fp
